@@ -1236,6 +1236,9 @@ result_t NumberDataType::parseInput(const string inputStr, unsigned int* parsedV
           if (errno == ERANGE || static_cast<unsigned long long>(unsignedValue) >= (1ULL << m_bitCount)) {
             return RESULT_ERR_OUT_OF_RANGE;
           }
+          if (unsignedValue != 0 && inputStr.find('-') < static_cast<size_t>(strEnd - str)) {
+            return RESULT_ERR_OUT_OF_RANGE;  // strtoul negates a negative number modulo 2^64
+          }
           value = (unsigned int)unsignedValue;
         }
         if (strEnd == nullptr || strEnd == str || (*strEnd != 0 && *strEnd != '.')) {
